@@ -30,6 +30,15 @@ let run_huff = function
   | [lens; bits; n] -> observe (Model.new_vec (lens_of lens)) (bits_of bits) (int_of_string n)
   | _ -> "bad-args"
 
+(* huffl <sym:len,...> <bits> <n>: Huffman.new on the pairs in the order listed *)
+let run_huffl = function
+  | [pairs; bits; n] ->
+    let ps = if pairs = "-" then [] else
+        List.map (fun p -> match String.split_on_char ':' p with
+            | [s; l] -> (cn_of_string s, cn_of_string l) | _ -> failwith "bad pair") (String.split_on_char ',' pairs) in
+    observe (Model.new0 ps) (bits_of bits) (int_of_string n)
+  | _ -> "bad-args"
+
 let run_huffsym = function
   | [syms; bits; n] -> observe (Model.from_symbols (syms_of syms)) (bits_of bits) (int_of_string n)
   | _ -> "bad-args"
@@ -70,6 +79,7 @@ let dispatch kind args =
   match kind with
   | "tabmem" -> run_tabmem args
   | "huff" -> run_huff args
+  | "huffl" -> run_huffl args
   | "huffsym" -> run_huffsym args
   | "hufftree" -> run_hufftree args
   | "huffspec" -> run_spec args
